@@ -84,7 +84,7 @@ def build_variant(raw, variant, vseed):
     for k in list(arrs):
         how = variant if variant != "mixed" else rng.choice(["c", "f", "strided", "neg", "wide", "readonly"])
         arrs[k] = _layout(arrs[k], how, rng)
-    if variant == "mixed" and n >= 1 and len(set(raw["pnames"])) == 1 and rng.random() < 0.5:
+    if variant == "mixed" and n >= 1 and len(raw["pnames"]) == n and len(set(raw["pnames"])) == 1 and rng.random() < 0.5:
         arrs["plate_names"] = np.broadcast_to(np.array(raw["pnames"][0], dtype=str), (n,))      # zero strides, read-only
     before = {k: (_sig(v), v.shape, v.dtype.str) for k, v in arrs.items()}
     kw = {k: v for k, v in arrs.items() if k[:2] not in ("tm", "sm")}
@@ -415,7 +415,7 @@ def run(ctx, res):
         raw = S.gen_raw(rng, n_max=8)
         if len(raw["snames"]) < 2:
             continue
-        m = rng.choice(["mixed-mask", "mask-no-obs", "bad-tmap-gap", "tmap-missing", "smap-missing", "smap-gap"])
+        m = rng.choice(["mixed-mask", "mask-no-obs", "bad-tmap-gap", "tmap-missing", "smap-missing", "smap-gap", "mask-len", "obs-len", "pnames-short"])
         try:
             if m == "mixed-mask":
                 raw["pnames"] = [raw["pnames"][0]] * len(raw["pnames"])
@@ -424,6 +424,14 @@ def run(ctx, res):
             elif m == "mask-no-obs":
                 raw["obs"] = None
                 raw["mask"] = [True] * len(raw["snames"])
+            elif m == "mask-len":       # observation_mask[plate_mask] -> IndexError
+                raw["obs"] = raw["obs"] or [0.5] * len(raw["snames"])
+                raw["mask"] = [True] * (len(raw["snames"]) + rng.choice([-1, 1, 2]))
+            elif m == "obs-len":
+                raw["obs"] = [0.5] * (len(raw["snames"]) + rng.choice([-1, 1]))
+                raw["mask"] = None
+            elif m == "pnames-short":
+                raw["pnames"] = raw["pnames"][:-1]
             else:
                 tm, sm = S.superset_mappings(rng, raw)
                 tm = ([str(x) for x in tm[0]], [float(x) for x in tm[1]], [int(x) for x in tm[2]])
